@@ -7,6 +7,7 @@ import (
 	"time"
 
 	protocol "github.com/longportapp/openapi-protocol/go"
+	"github.com/longportapp/openapi-protocol/go/verifhook"
 
 	control "github.com/longportapp/openapi-protobufs/gen/go/control"
 	"github.com/pkg/errors"
@@ -157,6 +158,7 @@ func (c *client) dial(ctx context.Context, dialer DialConnFunc) (err error) {
 		c.conn.OnPacket(c.onPacket)
 		c.conn.OnClose(c.onConnClose)
 	}
+	verifhook.Point("client.dial:done", verifhook.ID(c.conn))
 
 	return
 }
@@ -202,6 +204,7 @@ func (c *client) auth() error {
 }
 
 func (c *client) reconnecting() {
+	verifhook.Point("reconnecting:enter")
 	c.Lock()
 	if c.doReconnectting {
 		c.Unlock()
@@ -210,6 +213,7 @@ func (c *client) reconnecting() {
 
 	c.doReconnectting = true
 	c.Unlock()
+	verifhook.Point("reconnecting:start")
 
 	waitCh := make(chan struct{})
 
@@ -220,6 +224,7 @@ func (c *client) reconnecting() {
 
 		for {
 			c.Logger.Info("start reconnecting.")
+			verifhook.Point("reconnect:attempt")
 
 			err := c.reconnect()
 
@@ -249,6 +254,7 @@ func (c *client) reconnecting() {
 	c.Lock()
 	c.doReconnectting = false
 	c.Unlock()
+	verifhook.Point("reconnecting:done")
 }
 
 func (c *client) reconnect() error {
@@ -404,6 +410,8 @@ func (c *client) AfterReconnected(fn func()) {
 
 // Close used to close conn between server
 func (c *client) Close(err error) error {
+	verifhook.Point("client.Close:enter")
+	defer verifhook.Point("client.Close:return")
 	c.Logger.Info("close client")
 	close(c.closeCh)
 	c.RLock()
@@ -481,6 +489,7 @@ func (c *client) keepalive() {
 		}
 
 		c.lastKeepaliveId = id
+		verifhook.Point("keepalive:ping", uint64(id))
 
 		return nil
 	}
@@ -492,6 +501,7 @@ func (c *client) keepalive() {
 		case <-t.C:
 			if err := check(); err != nil {
 				c.Logger.Errorf("keepalive error: %v", err)
+				verifhook.Point("keepalive:timeout")
 				c.reconnecting()
 				continue
 			}
@@ -572,12 +582,15 @@ func (c *client) handleResponse(packet *protocol.Packet) {
 	if ch, ok := c.recvs[packet.Metadata.RequestId]; ok {
 		select {
 		case ch <- packet:
+			verifhook.Point("resp:lookup", uint64(packet.Metadata.RequestId), 1)
 		default:
 			c.Logger.Warnf("duplicate response of req %d", packet.Metadata.RequestId)
+			verifhook.Point("resp:lookup", uint64(packet.Metadata.RequestId), 2)
 		}
 		return
 	}
 	c.Logger.Warnf("no receiver for req %d", packet.Metadata.RequestId)
+	verifhook.Point("resp:lookup", uint64(packet.Metadata.RequestId), 0)
 }
 
 func (c *client) handlePing(packet *protocol.Packet) {
@@ -610,6 +623,7 @@ func (c *client) recv(ctx context.Context, rid uint32) (res *protocol.Packet, er
 	defer func() {
 		c.recvsMu.Lock()
 		delete(c.recvs, rid)
+		verifhook.Point("waiter:unregister", uint64(rid))
 		c.recvsMu.Unlock()
 
 		close(ch)
@@ -617,6 +631,7 @@ func (c *client) recv(ctx context.Context, rid uint32) (res *protocol.Packet, er
 
 	c.recvsMu.Lock()
 	c.recvs[rid] = ch
+	verifhook.Point("waiter:register", uint64(rid))
 	c.recvsMu.Unlock()
 
 	select {
